@@ -399,7 +399,7 @@ fn eval(ctx: &CaseCtx, acc: &mut CellAcc, x: u64, neg: bool, init: u64, out0: u6
 fn run_cell(cell: &Cell, m: &Model, thorough: bool, total_evals: &AtomicU64) -> (CellAcc, Value) {
     let t0 = std::time::Instant::now();
     let dom = domain(cell, m, thorough);
-    let cap: u64 = if thorough { 6_000_000_000 } else { 200_000_000 };
+    let cap: u64 = if thorough { 6_000_000_000 } else { 40_000_000 };
     let negs: &[bool] = if m.uses_negative { &[false, true] } else { &[false] };
     let fb = full_basis(m.fmt.nbytes);
     let (basis, basis_name) = if (dom.xs.len() as u64) * (fb.len() as u64) * (negs.len() as u64) <= cap {
